@@ -95,7 +95,7 @@ def run(ctx):
             ops, c, r = H.gen_competition(rng, athlib, float_heights=True, h0=rng.randint(100, 260), steps=(1, 1, 2, 3, 5),
                                           att_choice=(lambda g: g.choice(['o', 'o', 'o', 'xo', 'xo', 'xxx', 'xxx'])) if i % 4 == 1 else None)
         else:
-            ops, c, r = H.gen_competition(rng, athlib, peek=(i % 4 == 2), jo_heights=3 if ctx.quick() else 5)
+            ops, c, r = H.gen_competition(rng, athlib, peek=(i % 4 == 2), jo_heights=3 if ctx.quick() else 5, probes=(i % 12 < 6))
         run_one(ops, c, r)
         if i < 3: ctx.sample({'calls': H.fmt_ops(ops), 'state': c.state, 'places': {j.bib: j.place for j in c.jumpers}})
     got = vlib.driver(lines)
